@@ -50,6 +50,7 @@ fn main() {
         "c08-names" => c06::run_names(rest),
         "c15" => c15::run(rest),
         "c15-child" => c15::child(rest),
+        "c15conc" => c15::run_conc(rest),
         "client" => client::run(rest),
         x => {
             eprintln!("unknown command {x}");
